@@ -138,7 +138,7 @@ func (t *thrModel) rbcMsgAllocs() []*ssa.Alloc {
 	for _, fn := range t.fns {
 		for _, in := range instrsOf(fn) {
 			if a, ok := in.(*ssa.Alloc); ok {
-				if p, ok := a.Type().(*types.Pointer); ok && isNamed(p.Elem(), PkgThreshold, "rbcMsg") {
+				if p, ok := a.Type().(*types.Pointer); ok && t.m.isNamedA(p.Elem(), PkgThreshold, "rbcMsg") {
 					out = append(out, a)
 				}
 			}
